@@ -69,7 +69,18 @@ fn case_fn(case: &mut Case) -> CaseResult {
             detail,
         ));
     }
-    let os = op_stage(ss.doc.as_ref().unwrap(), 1, &ofiles, &detail)?;
+    // a fifth of the cases check against the schema as an introspection result gives it (`.json` schema file)
+    let js;
+    let ischema;
+    let mut svalue = None;
+    if case.ch.chance(1, 5) {
+        case.label("schema-via-introspection-json");
+        let io = crate::introspect::IntrospectOpts { meta_types: case.ch.flip(), absent_optionals: case.ch.flip(), shuffle: case.ch.flip() };
+        js = crate::introspect::introspect(&gs.schema, &io, Some(&mut case.ch));
+        ischema = schema_via_introspection(&js, &detail)?;
+        svalue = Some(&ischema);
+    }
+    let os = op_stage_with(ss.doc.as_ref().unwrap(), svalue, 1, &ofiles, &detail)?;
     let diags = os.all_diags();
     if let Some(d) = diags.first() {
         return Err(Failure::new(
